@@ -66,8 +66,80 @@ def rename_rule(ctx):
                "the NEW write-ahead log, leaving later transactions without recovery", b.where)
 
 
+def cached_state_rules(ctx):
+    """Reopening rebuilds in-memory caches from the file, so a cached value and its persisted copy must change together.
+    R05f: every DbVecData method that changes the cached `len` writes the length field (offset 0 of the vector's value)
+    on every success path.  R05g: DbIndexes keeps `indexes` (memory) and `storage_indexes` (file) position-aligned: the
+    same kind of operation is applied to both."""
+    fa = ctx.facts
+    n = 0
+    for b in sorted(fa.bodies.values(), key=lambda x: x.path):
+        if b.crate != "agdb" or "collections::vec::DbVecData" not in (b.d.get("impl_self") or "") or b.d["argc"] < 1:
+            continue
+        asg = [bi for bi, s in cfg.assigns(b) if s["l"][0] == 1 and [e for e in s["l"][1:] if e != "*"] == [".len"]]
+        if not asg:
+            continue
+        n += 1
+        wr = []
+        for i, t in cfg.calls(b):
+            if common.norm(cfg.callee(t) or "") == "agdb::storage::Storage::insert_at" and len(t["a"]) > 2:
+                k = cfg.op_const(t["a"][2])
+                src = t["a"][2]
+                v = k.get("v") if k else None
+                if v is None:
+                    o = cfg.op_origin(b, src)
+                    ds = cfg.defs(b).get(o[0], []) if o else []
+                    if len(ds) == 1 and ds[0][0] == "assign" and ds[0][2]["k"] == "use" and cfg.op_const(ds[0][2]["o"]):
+                        v = cfg.op_const(ds[0][2]["o"]).get("v")
+                if v == 0:
+                    wr.append(i)
+        okb, errb, unk = cfg.ret_class_blocks(b)
+        targets = (okb + unk) or cfg.return_blocks(b)
+        p = cfg.find_path(b, [0], targets, avoid=wr) if wr else [0]
+        # paths that do not change the length need no write: only paths through an assignment of self.len count
+        bad = None
+        for a in asg:
+            pre = cfg.find_path(b, [0], [a], avoid=wr)
+            post = cfg.find_path(b, [a], targets, avoid=wr, leave_start=True) if a not in targets else [a]
+            if pre is not None and post is not None:
+                bad = a
+        name = b.d.get("name")
+        ctx.ob("R05f", "DbVecData::%s:len-persisted" % name, bool(wr) and bad is None,
+               "the cached length and the length stored in the file are updated together" if (wr and bad is None) else
+               "DbVecData::%s changes the cached length on a path that never writes the stored length: after reopen the "
+               "vector (e.g. a hash map's state table) has its old length" % name, b.where)
+    ctx.floor("R05f", "DbVecData methods changing the cached length", n, 2)
+
+    IX = "agdb::db::db_index::DbIndexes::"
+    PAIR = {"push": "push", "remove": "remove", "shrink_to_fit": "shrink_to_fit", "clear": "clear", "insert": "insert",
+            "swap_remove": "swap_remove", "truncate": "truncate", "swap": "swap", "pop": "pop", "drain": "drain"}
+    nix = 0
+    for b in fa.find(r"^agdb::db::db_index::DbIndexes::[a-z_]+$"):
+        mem, disk = [], []
+        for i, t in cfg.calls(b):
+            if not t["a"]:
+                continue
+            o = cfg.op_origin(b, t["a"][0])
+            nme = (cfg.callee(t) or "").split("::")[-1]
+            if not (o and o[0] == 1 and o[1]) or nme not in PAIR:
+                continue
+            if o[1][0] == ".indexes" and (cfg.callee(t) or "").startswith("std::vec::Vec::"):
+                mem.append(nme)
+            elif o[1][0] == ".storage_indexes":
+                disk.append(nme)
+        if not mem and not disk:
+            continue
+        nix += 1
+        ctx.ob("R05g", "DbIndexes::%s:memory~storage" % b.d.get("name"), sorted(mem) == sorted(disk),
+               "the in-memory list and the stored list receive the same operations %s" % sorted(mem) if sorted(mem) == sorted(disk)
+               else "DbIndexes::%s applies %s to the in-memory index list but %s to the stored list: positions diverge and "
+               "the next removal (or reopen) hits the wrong index" % (b.d.get("name"), sorted(mem), sorted(disk)), b.where)
+    ctx.floor("R05g", "DbIndexes methods mutating both lists", nix, 2)
+
+
 def run(ctx):
     fa = ctx.facts
+    cached_state_rules(ctx)
     b = ctx.anchor("R05a", "<agdb::db::DbImpl<Store> as std::ops::Drop>::drop")
     if b:
         cb = cfg.call_blocks(b, ["agdb::storage::Storage::optimize_storage"])
